@@ -46,6 +46,18 @@ def load_json(path, default):
 
 def native_replay(path):
     try:
+        doc0 = load_json(path, {})
+        if doc0.get('const_search'):
+            # T4 (C03): replay = re-run the native (p, rm) search of tools/const_search.py
+            cs = doc0['const_search']
+            out = subprocess.run([VENV_PY, os.path.join(ROOT, 'tools', 'const_search.py'), cs['constant'], cs['ops'], str(cs.get('max_p', 64))],
+                                 capture_output=True, text=True, timeout=170, env=dict(os.environ, FPY_REPO=REPO))
+            rdoc = json.loads(out.stdout.strip().split('\n')[-1])
+            rdoc['verdict'] = 'contract-violated' if rdoc.get('reproduced') else 'holds'
+            rdoc['failed'] = [doc0.get('obligation')] if rdoc.get('reproduced') else []
+            rdoc['inputs'] = rdoc.get('first')
+            rdoc['outcome'] = rdoc.get('repro')
+            return (1 if rdoc.get('reproduced') else 0), rdoc
         out = subprocess.run([VENV_PY, os.path.join(ROOT, 'replay.py'), path], capture_output=True, text=True,
                              timeout=120, env=dict(os.environ, FPY_REPO=REPO))
         try:
@@ -126,13 +138,17 @@ def main(argv=None):
         names = [n for n, c in ex0.contracts.items() if prop in c.props]
         if a.only:
             names = [n for n in names if n in a.only or ex0.contracts[n].short in a.only]
-        if not names:
+        if not names and not (prop == 'C03' and a.only and 'ConstTable_T4' in a.only):
             print(f'no contracts for {prop}')
             return 3
         tier_opts = {'timeout_ms': 10000 if a.tier == 'quick' else 60000}
         os.environ['VERIF_TIER'] = a.tier
         sym_names = [n for n in names if not (a.tier == 'quick' and ex0.contracts[n].opts.get('symbolic_tier') == 'thorough')]
         reports, ex = run(mods, sym_names, procs=a.j, opts=tier_opts)
+        if prop == 'C03' and (not a.only or 'ConstTable_T4' in a.only):
+            # T4: syntactic obligations on gmp._constant_exprs (special-purpose checker, own obligations)
+            from pyvc import consttable
+            reports.append(consttable.run(REPO, search=False))
     except Exception as e:
         print(f'CHECKER-CRASH {type(e).__name__}: {e}')
         traceback.print_exc()
@@ -181,7 +197,7 @@ def main(argv=None):
     soft = set()      # proved this run, but the contract allows a bounded fallback: not part of the hard ledger
     for full, o in sorted(obligations.items()):
         if not o['open']:
-            copts = ex.contracts[o['contract']].opts
+            copts = ex.contracts[o['contract']].opts if o['contract'] in ex.contracts else {}
             if o.get('bounded') or copts.get('bounded'):
                 bounded.append({'obligation': full, 'bounded_path_queries': o.get('bounded', 0), 'path_queries': o['paths'],
                                 'bound': (copts.get('bounded') or copts.get('bounded_fallback')),
@@ -194,6 +210,20 @@ def main(argv=None):
         open_.append(full)
         confirmed = []
         for i, ent in enumerate(o['open']):
+            if ent.get('status') == 'syntactic-fail':
+                # T4: the failing input is searched natively, (precision, rounding mode) of the public const_* function
+                from pyvc import consttable
+                cname = o['name'].split('[')[1].split(':')[0]
+                path = os.path.join(rdir, safe_name(full) + f'.{i}.json')
+                with open(path, 'w') as f:
+                    json.dump({'property': prop, 'obligation': o['name'], 'reason': ent['info'], 'expression': ent['trace'],
+                               'const_search': {'constant': cname, 'ops': consttable.OPS_NAME.get(cname), 'max_p': 64}}, f, indent=1)
+                code, rdoc = native_replay(path)
+                ent['replay'] = {'file': path, 'exit': code, 'verdict': rdoc.get('verdict'), 'failed': rdoc.get('failed'),
+                                 'outcome': rdoc.get('outcome'), 'inputs': rdoc.get('inputs'), 'result': rdoc.get('first')}
+                if code == 1:
+                    confirmed.append((path, rdoc))
+                continue
             if ent.get('cex'):
                 doc = {'property': prop, 'obligation': o['name'], 'contract': o['contract'],
                        'contract_module': ex.contracts[o['contract']].ci.module.name,
